@@ -313,6 +313,55 @@ def run_lines(case):
     return ck.result()
 
 
+# ----------------------------------------------------------------------------------------- (b') collections of meeting lines
+@st.composite
+def meeting_case(draw, tier="quick"):
+    k = draw(st.integers(1, 6))
+    pt = st.lists(st.integers(-1, 1), min_size=4, max_size=4)
+    return {"triples": [[draw(pt), draw(pt), draw(pt)] for _ in range(k)], "bcast": draw(st.booleans()), "form": draw(st.sampled_from(["function", "method"]))}
+
+
+def run_meeting(c):
+    """LineCollections of 3-space whose positions are pairs of distinct lines through a common lattice point p (lines p q1 and
+    p q2, all coordinates in {-1, 0, 1}): meet gives p, join the plane p q1 q2 at every position, nothing is raised; with
+    `bcast` the first line is one single Line for all positions"""
+    tr = c["triples"]
+    if not tr or any(len(t) != 3 or any(len(v) != 4 for v in t) for t in tr):
+        raise Skip("malformed")
+    FALLBACK = [[[0, 0, 0, 1], [1, 0, 0, 1], [0, 1, 0, 1]], [[-1, 0, 0, 1], [0, 0, 1, 1], [0, 1, 1, 0]], [[1, -1, -1, 1], [0, 1, 0, 0], [0, 0, 1, 1]], [[0, -1, 0, 1], [1, 1, 0, 1], [-1, 0, 1, 1]]]
+    fix = lambda t: t if X.rank([[Fraction(int(x)) for x in v] for v in t]) == 3 else FALLBACK[sum(abs(int(x)) for v in t for x in v) % 4]  # noqa: E731
+    tr = [fix(t) for t in tr]  # dependent draws are replaced deterministically instead of being rejected
+    if c["bcast"]:
+        tr = [[tr[0][0], tr[0][1], t[2]] for t in tr]
+    ex = [[[Fraction(int(x)) for x in v] for v in t] for t in tr]
+    if any(X.rank(t) < 3 for t in ex):
+        raise Skip("dependent triple")
+    L1 = [mk_line(t[0], t[1]) for t in tr]
+    L2 = [mk_line(t[0], t[2]) for t in tr]
+    A = L1[0] if c["bcast"] else LineCollection(np.stack([l.array for l in L1]))
+    B = LineCollection(np.stack([l.array for l in L2]))
+    ck = Checker()
+    for name in ("meet", "join"):
+        site = f"meeting-collections:{name}" + (":broadcast" if c["bcast"] else "")
+        fn = (lambda: (meet if name == "meet" else join)(A, B)) if c["form"] == "function" else (lambda: getattr(A, name)(B))
+        try:
+            res = fn()
+        except (LinearDependenceError, NotCoplanar) as e:
+            ck.add(Fail(f"EXC:{type(e).__name__}", site + ":general-position", repr(getattr(e, "dependent_values", None))))
+            continue
+        except Exception as e:  # noqa: BLE001
+            ck.add(exc_fail(e, site))
+            continue
+        arr = np.asarray(res.array)
+        if not ck.check(arr.shape == (len(tr), 4), site + ":shape", arr.shape):
+            continue
+        for i, t in enumerate(ex):
+            exp = t[0] if name == "meet" else X.cofactor_hyperplane(t)
+            if not ck.check(C.peq_all(arr[i], C.to_c(exp)), site + ":position-value", (i, arr[i].tolist(), [str(x) for x in exp])):
+                break
+    return ck.result()
+
+
 # ----------------------------------------------------------------------------------------- (c) generated degeneracies
 CONFIGS = ["coincident_points2", "coincident_points3", "equal_lines2", "equal_planes", "three_collinear_points3", "three_planes_through_line",
            "point_on_line3", "line_in_plane", "zero_vector", "equal_lines3", "skew_lines3", "meeting_lines3", "general2", "general3"]
@@ -545,6 +594,8 @@ LAWS = [
         labels=lambda c: [X.classify_lines3(*[[Fraction(x) for x in v] for v in (c["l"][0], c["l"][1], c["m"][0], c["m"][1])])],
         exhaustive=lambda tier: {"name": "pairs of lines through two of the 40 projective lattice points of {-1,0,1}^4 (608400 ordered pairs), stride sample", "size": 608400 // (31 if tier == "quick" else 3), "exhaustive": False},
         rule="two 3D lines: equal -> LinearDependenceError, skew -> NotCoplanar (join and meet), meeting -> exact plane / point; is_coplanar exact"),
+    Law("meeting_line_collections", lambda tier: meeting_case(tier), run_meeting, lambda c: len(c["triples"]) > 1, lambda c: ["broadcast" if c["bcast"] else "collections", c["form"]],
+        {"quick": 1500, "thorough": 30000}, "collections of pairs of 3D lattice lines through a common point: meet / join give the exact point / plane at every position, nothing raised", shard=300),
     Law("constructed", lambda tier: degen_case(tier), run_degen, degen_nontrivial, degen_labels, {"quick": 2500, "thorough": 40000},
         "constructed degeneracies with scrambled representatives, single and inside collections", shard=300,
         mandatory=("collection", "single", "collection-without-degenerate-position", "mixed-magnitude-collection")),
